@@ -58,6 +58,7 @@ Record case := mkCase {
   c_id : Z;
   c_doc : node;            (* modelled part of the input document t0 *)
   c_ok : bool;             (* config.Load(t0) accepted *)
+  c_panic : bool;          (* config.Load(t0) panicked *)
   c_f1 : node;             (* c1 *)
   c_skel : node;           (* keys present in t1 *)
   c_f2 : option node;      (* c2, None = Load(t1) rejected *)
@@ -67,10 +68,12 @@ Record case := mkCase {
 }.
 
 Definition mkRejected (id : int) (doc : node) : case :=
-  mkCase (Uint63.to_Z id) doc false NNull NNull None None (0, 0)%uint63 (0, 0)%uint63 (0, 0)%uint63 (0, 0)%uint63 (0, 0)%uint63 (0, 0)%uint63.
+  mkCase (Uint63.to_Z id) doc false false NNull NNull None None (0, 0)%uint63 (0, 0)%uint63 (0, 0)%uint63 (0, 0)%uint63 (0, 0)%uint63 (0, 0)%uint63.
+Definition mkPanicked (id : int) (doc : node) : case :=
+  mkCase (Uint63.to_Z id) doc false true NNull NNull None None (0, 0)%uint63 (0, 0)%uint63 (0, 0)%uint63 (0, 0)%uint63 (0, 0)%uint63 (0, 0)%uint63.
 Definition mkLoaded (id : int) (doc f1 skel : node) (f2 f3 : option node)
     (d1a d1b d2a d2b d3a d3b t1a t1b t2a t2b t3a t3b : int) : case :=
-  mkCase (Uint63.to_Z id) doc true (attach top_ty f1) skel
+  mkCase (Uint63.to_Z id) doc true false (attach top_ty f1) skel
          (option_map (attach top_ty) f2) (option_map (attach top_ty) f3)
          (d1a, d1b) (d2a, d2b) (d3a, d3b) (t1a, t1b) (t2a, t2b) (t3a, t3b).
 
@@ -89,7 +92,8 @@ Definition opt_is (o : option node) (r : res node) : bool :=
    4. the model predicts the reload — including every lossy one. *)
 Definition agree (c : case) : bool :=
   match load (c_doc c) with
-  | Err _ => negb (c_ok c)
+  | Err EPanic => c_panic c
+  | Err _ => negb (c_ok c) && negb (c_panic c)
   | Ok m =>
       c_ok c && node_eqb m (c_f1 c)
       && node_eqb (erase (print (c_f1 c))) (c_skel c)
